@@ -4,8 +4,8 @@ set -e
 VERIF_DIR="$(cd "$(dirname "$0")" && pwd)"
 export CARGO_NET_OFFLINE=true
 mkdir -p "$VERIF_DIR/.build" "$VERIF_DIR/evidence" "$VERIF_DIR/replays"
-cd "$VERIF_DIR/mc" && cargo build --release --offline
-cd "$VERIF_DIR/loomcheck" && cargo build --release --offline
+cd "$VERIF_DIR/mc" && CARGO_TARGET_DIR="$VERIF_DIR/.build/mc" cargo build --release --offline
+cd "$VERIF_DIR/loomcheck" && CARGO_TARGET_DIR="$VERIF_DIR/.build/loom" cargo build --release --offline
 # example binaries of C16 (dev profile, opt-level 1), same target dir and settings as the check uses
 (cd /repo && CARGO_TARGET_DIR="$VERIF_DIR/.build/examples" CARGO_PROFILE_DEV_OPT_LEVEL=1 cargo build --examples -p ddo --offline)
 echo "setup done"
